@@ -806,7 +806,7 @@ bool SoPlexBase<R>::getDualReal(R* p_vector, int dim) // For SCIP
    {
       _syncRealSolution();
       auto& dual = _solReal._dual;
-      std::copy(dual.begin(), dual.end(), p_vector);
+      std::copy(dual.begin(), dual.begin() + (dual.dim() < numRows() ? dual.dim() : numRows()), p_vector);
 
       return true;
    }
@@ -825,7 +825,7 @@ bool SoPlexBase<R>::getRedCostReal(R* p_vector, int dim) // For SCIP compatibili
    {
       _syncRealSolution();
       auto& redcost = _solReal._redCost;
-      std::copy(redcost.begin(), redcost.end(), p_vector);
+      std::copy(redcost.begin(), redcost.begin() + (redcost.dim() < numCols() ? redcost.dim() : numCols()), p_vector);
 
       return true;
    }
@@ -1146,7 +1146,7 @@ bool SoPlexBase<R>::getPrimalReal(R* p_vector, int size)
       _syncRealSolution();
 
       auto& primal = _solReal._primal;
-      std::copy(primal.begin(), primal.end(), p_vector);
+      std::copy(primal.begin(), primal.begin() + (primal.dim() < numCols() ? primal.dim() : numCols()), p_vector);
 
       return true;
    }
